@@ -362,7 +362,9 @@ Definition in_quantifier (e : entity) : bool :=
   (* the type / value / service names of each of the three packages, as documented, are distinct:
      the names the user chooses do not repeat each other or the entity's own component names *)
   && nodup_bytes (sp_main_scope e) && nodup_bytes (sp_service_scope e) && nodup_bytes (sp_topic_scope e)
-  (* query settings: default status filters name statuses *)
+  (* query settings: events in get, default status filters that name statuses (no list-request
+     settings: they are not part of the quantifier, and the real compiler panics on them) *)
+  && negb (list_settings e)
   && match e_query e with
      | Some q => forallb (fun f => existsb (bytes_eqb f) (e_status e)) (q_default_status q)
      | None => true
